@@ -151,6 +151,9 @@ func NewEffects(w *World) *Effects {
 					}
 				}
 			case *ssa.MapUpdate:
+				if freshMap(x.Map) {
+					return // filling a map made here and not yet stored anywhere changes no existing state
+				}
 				cls := "map:" + shortType(x.Map.Type())
 				d[cls] = true
 				if s[cls] == nil {
@@ -373,4 +376,25 @@ func closureEscapes(fn *ssa.Function) bool {
 		closureEscapeCache[fn] = 2
 	}
 	return esc
+}
+
+// freshMap: m is made by the enclosing function and is never stored into memory, captured or
+// put into another map there (it may be read, returned and passed to calls).
+func freshMap(m ssa.Value) bool {
+	mm, ok := m.(*ssa.MakeMap)
+	if !ok || mm.Referrers() == nil {
+		return false
+	}
+	for _, r := range *mm.Referrers() {
+		switch x := r.(type) {
+		case *ssa.MapUpdate:
+			if x.Map != ssa.Value(mm) {
+				return false
+			}
+		case *ssa.Lookup, *ssa.Range, *ssa.Return, *ssa.DebugRef, *ssa.Call:
+		default:
+			return false
+		}
+	}
+	return true
 }
